@@ -625,7 +625,11 @@ class BrownianInterval(brownian_base.BaseBrownian, _Interval):
             if self._have_H:
                 H = torch.zeros(self._size, dtype=self._dtype, device=self._device)
             if self._have_A:
-                size = (*self._size, *self._size[-1:])  # not self._size[-1] as that may not exist
+                if len(self._size) < 2:
+                    # As in _davie_foster_approximation: with fewer than two dimensions everything is batch.
+                    size = self._size
+                else:
+                    size = (*self._size, *self._size[-1:])
                 A = torch.zeros(size, dtype=self._dtype, device=self._device)
         else:
             if self._dt is None and not self._halfway_tree:
